@@ -11,7 +11,9 @@ TOKENS = ["<", ">", "/", "%", "#", "(", ")", "$$", "a", "B", "1", "-", " ", "\t"
 LINE_SHAPES = ["<a>", "<A n>", "<b>", "<a/>", "<a N />", "</a>", "</A >", "</b>",
                "k v", "k", "", "# c", "%import p", "<a b c>", "</a n>", "<a/ >",
                "k a\x0cb", "# c\u2028k v", "k a\x85b\rc", "</A>", "< a>", "<\ta n/>", "<a>b>",
-               "k $(ZCV_EMPTY)", "k a$(ZCV_EMPTY)b $(ZCV_WORD)", "k $(ZCV_UNSET)"]
+               "k $(ZCV_EMPTY)", "k a$(ZCV_EMPTY)b $(ZCV_WORD)", "k $(ZCV_UNSET)",
+               # a section type is any run of non-blank characters: also one with a '/' in it
+               "<a/b>", "</a/b>"]
 # extra shapes only used with the recording context (schemaless refuses them)
 DIRECTIVE_SHAPES = ["%define n v", "%define N", "%include f", "k $n", "%define m $n",
                     "%Define n v", "%define", "%import", "%foo x", "% define n v",
